@@ -53,6 +53,10 @@ func (g *xmlGen) elem(depth int, scope map[string]string) XN {
 	if r.Chance(1, 2) {
 		nd = 0
 	}
+	if g.collide {
+		// every element declares something, so that most elements are in one of the colliding namespaces
+		nd = 1 + r.Intn(2)
+	}
 	used := map[string]bool{}
 	for i := 0; i < nd; i++ {
 		p := Pick(r, []string{"p", "q", "", "p"})
@@ -82,7 +86,7 @@ func (g *xmlGen) elem(depth int, scope map[string]string) XN {
 		}
 	}
 	sortStrings(prefs)
-	if len(prefs) > 0 && r.Chance(1, 3) {
+	if len(prefs) > 0 && (r.Chance(1, 3) || (g.collide && r.Chance(2, 3))) {
 		n.HasPfx, n.Pfx = true, Pick(r, prefs)
 	}
 	seen := map[string]bool{}
